@@ -36,7 +36,7 @@ def simd(impl, vec):
         {"name": "fill_segment_%s_schedule_and_frame_%s" % (impl, CASES[c]), "files": files, "incdirs": inc, "defines": defs + ["RXV_CASE=%d" % c],
          "entry": "h_fill_segment", "enforce": fn,
          "replace": ["randomx_argon2_index_alpha/rxv_index_alpha_use", "fill_block/rxv_fill_block_use"], "loop_contracts": True, "checks": CHECKS,
-         "expect_classes": ["postcondition", "precondition", "loop_invariant_base", "loop_invariant_step"], "expect_min": 10, "timeout": 3600, "mem_gb": 24, "weight": 4}
+         "expect_classes": ["postcondition", "precondition", "loop_invariant_base", "loop_invariant_step"], "expect_min": 10, "timeout": 3600, "mem_gb": 20, "weight": 5}
         for c in range(3)
     ]
 
